@@ -121,6 +121,8 @@ SPECIAL = {
     "intkey": lambda: {1: 2},
     "object": lambda: object(),
     "exception": lambda: ValueError("inner"),
+    "exc_custom_ctor": lambda: TwoArgs("billing", 503),     # pickles, but cannot be unpickled (args != ctor args)
+    "exc_kwonly": lambda: KwOnly(code=3),
     "class": lambda: int,
     "strsub": lambda: StrSub("abc"),
     "surrogate": lambda: "caf\udce9",
